@@ -36,6 +36,16 @@ pub enum FTy {
     BytesVec,
     /// `Option<&'a [u8]>` with `#[cbor(with = "minicbor::bytes")]`
     OptBytesRef,
+    /// `[u8; 4]` with `#[cbor(with = "minicbor::bytes")]`
+    ByteArr4,
+    /// `Cow<'a, [u8]>` with `#[cbor(with = "minicbor::bytes")]` (borrows when annotated with #[b])
+    CowBytes,
+    /// `Option<minicbor::bytes::ByteVec>` (no attribute: the newtype has its own impls)
+    OptByteVec,
+    /// `&'a minicbor::bytes::ByteSlice`
+    ByteSliceRef,
+    /// `minicbor::bytes::ByteArray<4>`
+    ByteArrayT,
     /// nested generated type (schema id)
     Nested(usize),
     OptNested(usize),
@@ -173,11 +183,11 @@ impl GenVal {
 impl FTy {
     /// Can the field be absent (its type has a nil value)?
     pub fn nilable(&self) -> bool {
-        matches!(self, FTy::OptU8 | FTy::OptStr | FTy::OptBytesRef | FTy::OptNested(_) | FTy::GenericOptU8 | FTy::NilU8Fns | FTy::NilU8FnsB | FTy::NilU8FnsC | FTy::NilU8FnsD | FTy::NilU8With | FTy::OptIndefArr)
+        matches!(self, FTy::OptU8 | FTy::OptStr | FTy::OptBytesRef | FTy::OptByteVec | FTy::OptNested(_) | FTy::GenericOptU8 | FTy::NilU8Fns | FTy::NilU8FnsB | FTy::NilU8FnsC | FTy::NilU8FnsD | FTy::NilU8With | FTy::OptIndefArr)
     }
     pub fn has_lifetime(&self, all: &[Schema]) -> bool {
         match self {
-            FTy::StrRef | FTy::CowStr | FTy::OptBytesRef => true,
+            FTy::StrRef | FTy::CowStr | FTy::OptBytesRef | FTy::CowBytes | FTy::ByteSliceRef => true,
             FTy::Nested(j) | FTy::OptNested(j) => all[*j].has_lifetime(all),
             _ => false,
         }
@@ -222,8 +232,9 @@ pub fn field_values(ty: &FTy, all: &[Schema], salt: u8) -> Vec<GenVal> {
         FTy::OptU8 | FTy::GenericOptU8 | FTy::NilU8Fns | FTy::NilU8FnsB | FTy::NilU8FnsC | FTy::NilU8FnsD | FTy::NilU8With => vec![GenVal::some(GenVal::U8(d)), GenVal::none(), GenVal::some(GenVal::U8(24)), GenVal::some(GenVal::U8(255))],
         FTy::Str | FTy::StrRef | FTy::CowStr => vec![GenVal::Str(format!("s{}", d)), GenVal::Str(String::new()), GenVal::Str("x".repeat(24))],
         FTy::OptStr => vec![GenVal::some(GenVal::Str(format!("s{}", d))), GenVal::none(), GenVal::some(GenVal::Str(String::new()))],
-        FTy::BytesVec => vec![GenVal::Bytes(vec![d]), GenVal::Bytes(vec![]), GenVal::Bytes(vec![7; 24])],
-        FTy::OptBytesRef => vec![GenVal::some(GenVal::Bytes(vec![d])), GenVal::none(), GenVal::some(GenVal::Bytes(vec![]))],
+        FTy::BytesVec | FTy::CowBytes | FTy::ByteSliceRef => vec![GenVal::Bytes(vec![d]), GenVal::Bytes(vec![]), GenVal::Bytes(vec![7; 24])],
+        FTy::ByteArr4 | FTy::ByteArrayT => vec![GenVal::Bytes(vec![d, 0, 255, 24]), GenVal::Bytes(vec![0; 4])],
+        FTy::OptBytesRef | FTy::OptByteVec => vec![GenVal::some(GenVal::Bytes(vec![d])), GenVal::none(), GenVal::some(GenVal::Bytes(vec![]))],
         FTy::IndefArr => vec![GenVal::Bytes(vec![d, 2]), GenVal::Bytes(vec![])],
         FTy::OptIndefArr => vec![GenVal::some(GenVal::Bytes(vec![d])), GenVal::none(), GenVal::some(GenVal::Bytes(vec![]))],
         FTy::Nested(j) => {
@@ -345,8 +356,8 @@ fn encode_field_value(ty: &FTy, all: &[Schema], v: &GenVal) -> Item {
         (FTy::OptU8 | FTy::GenericOptU8 | FTy::NilU8Fns | FTy::NilU8FnsB | FTy::NilU8FnsC | FTy::NilU8FnsD | FTy::NilU8With, GenVal::Opt(Some(x))) => Item::uint(x.u8() as u64),
         (FTy::Str | FTy::StrRef | FTy::CowStr, GenVal::Str(s)) => Item::text(s),
         (FTy::OptStr, GenVal::Opt(Some(x))) => Item::text(x.str()),
-        (FTy::BytesVec, GenVal::Bytes(b)) => Item::bytes(b),
-        (FTy::OptBytesRef, GenVal::Opt(Some(x))) => Item::bytes(x.bytes()),
+        (FTy::BytesVec | FTy::CowBytes | FTy::ByteSliceRef | FTy::ByteArr4 | FTy::ByteArrayT, GenVal::Bytes(b)) => Item::bytes(b),
+        (FTy::OptBytesRef | FTy::OptByteVec, GenVal::Opt(Some(x))) => Item::bytes(x.bytes()),
         (FTy::IndefArr, GenVal::Bytes(b)) => Item::Array(b.iter().map(|x| Item::uint(*x as u64)).collect(), Len::Indef),
         (FTy::OptIndefArr, GenVal::Opt(Some(x))) => Item::Array(x.bytes().iter().map(|x| Item::uint(*x as u64)).collect(), Len::Indef),
         (FTy::Nested(j), x) => schema_encode(&all[*j], all, x),
@@ -489,13 +500,18 @@ fn decode_field_value(ty: &FTy, all: &[Schema], i: &Item) -> R {
     match ty {
         FTy::U8 | FTy::GenericU8 => u8_of(i).map(GenVal::U8),
         FTy::Str | FTy::StrRef | FTy::CowStr => text_of(i).map(GenVal::Str),
-        FTy::BytesVec => bytes_of(i).map(GenVal::Bytes),
+        FTy::BytesVec | FTy::CowBytes | FTy::ByteSliceRef => bytes_of(i).map(GenVal::Bytes),
+        FTy::ByteArr4 | FTy::ByteArrayT => match bytes_of(i) {
+            Ok(b) if b.len() == 4 => Ok(GenVal::Bytes(b)),
+            Ok(_) => Err(Stop::Err(ErrKind::Other)),
+            Err(e) => Err(e),
+        },
         FTy::IndefArr => u8_array_of(i).map(GenVal::Bytes),
         FTy::Nested(j) => decode_inner(&all[*j], all, i),
         _ if *i == NULL => Ok(GenVal::none()),
         FTy::OptU8 | FTy::GenericOptU8 | FTy::NilU8Fns | FTy::NilU8FnsB | FTy::NilU8FnsC | FTy::NilU8FnsD | FTy::NilU8With => opt(u8_of(i).map(GenVal::U8)),
         FTy::OptStr => opt(text_of(i).map(GenVal::Str)),
-        FTy::OptBytesRef => opt(bytes_of(i).map(GenVal::Bytes)),
+        FTy::OptBytesRef | FTy::OptByteVec => opt(bytes_of(i).map(GenVal::Bytes)),
         FTy::OptIndefArr => opt(u8_array_of(i).map(GenVal::Bytes)),
         FTy::OptNested(j) => opt(decode_inner(&all[*j], all, i)),
     }
@@ -867,14 +883,14 @@ fn enumerate_schemas_base(thorough: bool) -> Vec<Schema> {
 
     // ---- G-type: every field type in every container position
     let tys: Vec<FTy> = vec![
-        FTy::U8, FTy::OptU8, FTy::Str, FTy::OptStr, FTy::StrRef, FTy::CowStr, FTy::BytesVec, FTy::OptBytesRef, FTy::GenericU8, FTy::GenericOptU8, FTy::NilU8Fns, FTy::NilU8FnsB, FTy::NilU8FnsC, FTy::NilU8FnsD, FTy::NilU8With, FTy::IndefArr, FTy::OptIndefArr,
+        FTy::U8, FTy::OptU8, FTy::Str, FTy::OptStr, FTy::StrRef, FTy::CowStr, FTy::BytesVec, FTy::OptBytesRef, FTy::ByteArr4, FTy::CowBytes, FTy::OptByteVec, FTy::ByteSliceRef, FTy::ByteArrayT, FTy::GenericU8, FTy::GenericOptU8, FTy::NilU8Fns, FTy::NilU8FnsB, FTy::NilU8FnsC, FTy::NilU8FnsD, FTy::NilU8With, FTy::IndefArr, FTy::OptIndefArr,
         FTy::Nested(h_arr), FTy::OptNested(h_arr), FTy::Nested(h_map), FTy::OptNested(h_map), FTy::Nested(h_enum), FTy::OptNested(h_enum), FTy::Nested(h_ionly), FTy::OptNested(h_ionly), FTy::Nested(h_life), FTy::OptNested(h_tagged),
         FTy::OptNested(h_allopt_map),
     ];
     for ty in &tys {
         for enc in [None, Some(Enc::Map)] {
             for borrow in [false, true] {
-                if borrow && !matches!(ty, FTy::CowStr | FTy::StrRef | FTy::OptBytesRef | FTy::Nested(_)) {
+                if borrow && !matches!(ty, FTy::CowStr | FTy::CowBytes | FTy::StrRef | FTy::ByteSliceRef | FTy::OptBytesRef | FTy::Nested(_)) {
                     continue;
                 }
                 // the field under test sits at index 1 (a gap before it) and is followed by a mandatory sibling
@@ -899,7 +915,7 @@ fn enumerate_schemas_base(thorough: bool) -> Vec<Schema> {
         // transparent newtypes
         for shape in [Shape::Named, Shape::Tuple] {
             let mut f = fld(0, ty.clone());
-            f.borrow = matches!(ty, FTy::CowStr);
+            f.borrow = matches!(ty, FTy::CowStr | FTy::CowBytes);
             b.push("G-type", false, Kind::Struct(StructS { shape, enc: None, tag: None, transparent: true, fields: vec![f] }));
         }
     }
@@ -952,6 +968,11 @@ fn ty_src(ty: &FTy, all: &[Schema]) -> String {
         FTy::CowStr => "std::borrow::Cow<'a, str>".into(),
         FTy::BytesVec => "Vec<u8>".into(),
         FTy::OptBytesRef => "Option<&'a [u8]>".into(),
+        FTy::ByteArr4 => "[u8; 4]".into(),
+        FTy::CowBytes => "std::borrow::Cow<'a, [u8]>".into(),
+        FTy::OptByteVec => "Option<minicbor::bytes::ByteVec>".into(),
+        FTy::ByteSliceRef => "&'a minicbor::bytes::ByteSlice".into(),
+        FTy::ByteArrayT => "minicbor::bytes::ByteArray<4>".into(),
         FTy::Nested(j) => type_use(&all[*j], all, "'a"),
         FTy::OptNested(j) => format!("Option<{}>", type_use(&all[*j], all, "'a")),
         FTy::GenericU8 | FTy::GenericOptU8 => "G".into(),
@@ -991,7 +1012,7 @@ fn field_attrs(f: &FieldS, style: usize) -> String {
         parts.push(format!("tag({})", t));
     }
     match f.ty {
-        FTy::BytesVec | FTy::OptBytesRef => {
+        FTy::BytesVec | FTy::OptBytesRef | FTy::ByteArr4 | FTy::CowBytes => {
             if style == 1 {
                 parts.push("encode_with = \"minicbor::bytes::encode\"".into());
                 parts.push("decode_with = \"minicbor::bytes::decode\"".into());
@@ -1057,6 +1078,11 @@ fn make_expr(f: &FieldS, x: &str) -> String {
         FTy::CowStr => format!("std::borrow::Cow::Borrowed({}.str())", x),
         FTy::BytesVec => format!("{}.bytes().to_vec()", x),
         FTy::OptBytesRef => format!("{}.opt().map(|y| y.bytes())", x),
+        FTy::ByteArr4 => format!("<[u8; 4]>::try_from({}.bytes()).unwrap()", x),
+        FTy::CowBytes => format!("std::borrow::Cow::Borrowed({}.bytes())", x),
+        FTy::OptByteVec => format!("{}.opt().map(|y| minicbor::bytes::ByteVec::from(y.bytes().to_vec()))", x),
+        FTy::ByteSliceRef => format!("<&minicbor::bytes::ByteSlice>::from({}.bytes())", x),
+        FTy::ByteArrayT => format!("minicbor::bytes::ByteArray::from(<[u8; 4]>::try_from({}.bytes()).unwrap())", x),
         FTy::Nested(j) => format!("make_{}(&{})", j, x),
         FTy::OptNested(j) => format!("{}.opt().map(|y| make_{}(y))", x, j),
         FTy::NilU8Fns | FTy::NilU8FnsB | FTy::NilU8FnsC | FTy::NilU8FnsD | FTy::NilU8With => format!("derive_rt::NilU8({}.opt().map(|y| y.u8()))", x),
@@ -1077,6 +1103,8 @@ fn view_expr(f: &FieldS, t: &str) -> String {
         FTy::OptStr => format!("GenVal::Opt({}.as_ref().map(|y| Box::new(GenVal::Str(y.to_string()))))", t),
         FTy::BytesVec => format!("GenVal::Bytes({}.to_vec())", t),
         FTy::OptBytesRef => format!("GenVal::Opt({}.map(|y| Box::new(GenVal::Bytes(y.to_vec()))))", t),
+        FTy::ByteArr4 | FTy::CowBytes | FTy::ByteSliceRef | FTy::ByteArrayT => format!("GenVal::Bytes({}.to_vec())", t),
+        FTy::OptByteVec => format!("GenVal::Opt({}.as_ref().map(|y| Box::new(GenVal::Bytes(y.to_vec()))))", t),
         FTy::Nested(j) => format!("view_{}({})", j, t),
         FTy::OptNested(j) => format!("GenVal::Opt({}.as_ref().map(|y| Box::new(view_{}(y))))", t, j),
         FTy::NilU8Fns | FTy::NilU8FnsB | FTy::NilU8FnsC | FTy::NilU8FnsD | FTy::NilU8With => format!("GenVal::Opt({}.0.map(|y| Box::new(GenVal::U8(y))))", t),
@@ -1094,6 +1122,8 @@ fn borrow_expr(f: &FieldS, t: &str, all: &[Schema]) -> Option<String> {
         FTy::StrRef => Some(format!("derive_rt::inside(b, {0}.as_ptr(), {0}.len())", t)),
         FTy::CowStr if f.borrow => Some(format!("matches!({}, std::borrow::Cow::Borrowed(s) if derive_rt::inside(b, s.as_ptr(), s.len()))", t)),
         FTy::OptBytesRef => Some(format!("{}.map(|y| derive_rt::inside(b, y.as_ptr(), y.len())).unwrap_or(true)", t)),
+        FTy::ByteSliceRef => Some(format!("derive_rt::inside(b, {0}.as_ptr(), {0}.len())", t)),
+        FTy::CowBytes if f.borrow => Some(format!("matches!({}, std::borrow::Cow::Borrowed(s) if derive_rt::inside(b, s.as_ptr(), s.len()))", t)),
         FTy::Nested(j) if all[*j].has_lifetime(all) => Some(format!("borrow_{}({}, b)", j, t)),
         FTy::OptNested(j) if all[*j].has_lifetime(all) => Some(format!("{}.as_ref().map(|y| borrow_{}(y, b)).unwrap_or(true)", t, j)),
         _ => None,
